@@ -423,7 +423,45 @@ type c18FieldMode struct {
 	Mode  c18Mode `json:"mode"`
 }
 
+// c18Ty: the aliasing-relevant shape of a Go type, as xcopy emits it.
+type c18Ty struct {
+	K    string `json:"k"`
+	Elem *c18Ty `json:"elem,omitempty"`
+	Name string `json:"name,omitempty"`
+}
+
+func (t c18Ty) eq(u c18Ty) bool {
+	if t.K != u.K || t.Name != u.Name || (t.Elem == nil) != (u.Elem == nil) {
+		return false
+	}
+	return t.Elem == nil || t.Elem.eq(*u.Elem)
+}
+
+func c18TyOf(t reflect.Type) c18Ty {
+	switch t.Kind() {
+	case reflect.Interface:
+		return c18Ty{K: "iface"}
+	case reflect.Slice:
+		e := c18TyOf(t.Elem())
+		return c18Ty{K: "slice", Elem: &e}
+	case reflect.Map:
+		e := c18TyOf(t.Elem())
+		return c18Ty{K: "map", Elem: &e}
+	case reflect.Ptr:
+		e := c18TyOf(t.Elem())
+		return c18Ty{K: "ptr", Elem: &e}
+	case reflect.Struct:
+		return c18Ty{K: "named", Name: t.Name()}
+	}
+	return c18Ty{K: "imm"}
+}
+
 type c18Table struct {
+	Dyn []struct {
+		GoType string  `json:"gotype"`
+		Ty     c18Ty   `json:"ty"`
+		Mode   c18Mode `json:"mode"`
+	} `json:"dyn"`
 	Copy  map[string][]c18FieldMode `json:"copy"`
 	Roots []struct {
 		Name string  `json:"name"`
@@ -541,6 +579,40 @@ func (g *c18Guided) walk(o, c reflect.Value, m c18Mode, path, label string) {
 			return
 		}
 		g.walk(o.Elem(), c.Elem(), c18Mode{K: "recur", T: m.T}, path, label)
+	case "dyn":
+		// an `any` copied through the dynamic-value helper: per dynamic type
+		if o.Kind() != reflect.Interface {
+			contra("not an interface")
+			return
+		}
+		if o.IsNil() != c.IsNil() {
+			contra("nil vs non-nil interface")
+			return
+		}
+		if o.IsNil() {
+			return
+		}
+		if o.Elem().Type() != c.Elem().Type() {
+			contra("dynamic types differ (%s vs %s)", o.Elem().Type(), c.Elem().Type())
+			return
+		}
+		dt := c18TyOf(o.Elem().Type())
+		for _, dc := range g.table.Dyn {
+			if dc.Ty.eq(dt) {
+				g.walk(o.Elem(), c.Elem(), dc.Mode, path, label)
+				return
+			}
+		}
+		// no case: the helper hands the value back as-is
+		if !c18ShallowSame(o, c) {
+			contra("dynamic type %s has no case in the helper but the copy is not a plain assignment", o.Elem().Type())
+			return
+		}
+		var rs []c18Region
+		c18Regions(o, path, &rs)
+		if len(rs) > 0 {
+			g.aliases = append(g.aliases, c18Expect{path, label, "shared"})
+		}
 	case "recur":
 		if o.Kind() != reflect.Struct {
 			contra("not a struct")
